@@ -17,6 +17,9 @@ TECH = {
     "C12": "sibling rule over the Writer method set (guard + error constant), reader guard facts, type-level facts on (*exception).Is/Timeout",
     "C13": "track-then-recheck must-pass-through, LIFO registration order, guard facts on Shutdown returns and the idle predicate",
     "C14": "acquire/release pairing on error exits (descriptor, poller slot), ctx-branch must-pass-through, type-level fact: deadline error has Timeout()",
+    "C17": "worker hand-off (release -> re-read -> restart) as must-pass-through, spin-lock pairing and guarded-by, guard facts on Close/Add",
+    "C18": "CAS guard facts on the lazy-init state machine, must-pass-through on Run's open/start/store/rebalance steps",
+    "C19": "atomic-discipline census with frozen exemption table, guarded-by lookups, sibling shape check of the race-build overrides (-tags race configuration)",
     "C15": "close(2) call-site census (who-may-call), field-sensitive borrowed-descriptor rule, once-guard facts, error-exit pairing",
 }
 NOTE = "trusted: go/types+go/ssa (x/tools v0.29.0) model of the source, linearizable sync/atomic, role tables in /verif/checker; decides structural necessary conditions only - see level_claimed.text for what is not decided"
